@@ -36,7 +36,7 @@ const (
 	// a connection for a hostname that is being removed, arriving between proxy
 	// invalidation and the router rebuild, is still forwarded
 	c44SigWindowRemoved = "removed-hostname-forwarded-while-change-is-applied"
-	c44ProbeBudget      = 60 * time.Second
+	c44ProbeBudget      = 20 * time.Second
 )
 
 // ---- targets ------------------------------------------------------------------
@@ -269,20 +269,21 @@ func (o c44Obs) String() string {
 }
 
 type pendingProbe struct {
-	done chan struct{}
-	obs  c44Obs
+	done     chan struct{} // gateway side finished
+	returned chan struct{} // the client's handler returned
+	obs      c44Obs
 }
 
 func (p *pendingProbe) wait() c44Obs { <-p.done; return p.obs }
 
 // startProbe plays the gateway: it hands one end of a pipe to the client's
 // incoming-connection handler and talks HTTP (after the status frame for TCP
-// links) on the other end. inline=true calls the handler on the caller's
-// goroutine (used from inside the logging hook).
-func startProbe(c *client.Client, link string, hostname string, inline bool, budget time.Duration) *pendingProbe {
+// links) on the other end. The handler runs on its own goroutine, like a
+// stream handler of the client's router.
+func startProbe(c *client.Client, link string, hostname string, budget time.Duration) *pendingProbe {
 	gw, cl := net.Pipe()
 	gw.SetDeadline(time.Now().Add(budget))
-	p := &pendingProbe{done: make(chan struct{})}
+	p := &pendingProbe{done: make(chan struct{}), returned: make(chan struct{})}
 	alpn := protocol.Link_HTTP
 	if link == "tcp" {
 		alpn = protocol.Link_TCP
@@ -342,20 +343,16 @@ func startProbe(c *client.Client, link string, hostname string, inline bool, bud
 			}
 		}
 	}()
-	run := func() {
+	go func() {
 		err := c.VerifHandleIncoming(context.Background(), &protocol.Link{Alpn: alpn, Hostname: hostname, Remote: "203.0.113.9:4711"}, cl)
 		handlerErr <- err
-	}
-	if inline {
-		run()
-	} else {
-		go run()
-	}
+		close(p.returned)
+	}()
 	return p
 }
 
 func probe(c *client.Client, link, hostname string) c44Obs {
-	return startProbe(c, link, hostname, false, c44ProbeBudget).wait()
+	return startProbe(c, link, hostname, c44ProbeBudget).wait()
 }
 
 // ---- logging hook: the seeded yield point between invalidation and rebuild ----
@@ -381,7 +378,21 @@ type windowInjector struct {
 	armed   map[string]string // hostname -> link kind to inject
 	fired   map[string]*pendingProbe
 	seenLog atomic.Int64
+	// handler calls that returned while the change was held / that only returned later
+	inWindow, afterWindow atomic.Int64
+	bound                 atomic.Int64
 }
+
+func newInjector() *windowInjector {
+	w := &windowInjector{fired: map[string]*pendingProbe{}}
+	w.bound.Store(int64(c44HandlerBound.Load()))
+	return w
+}
+
+// shared across scenarios of one run: starts at 2 s, drops to 30 ms once a handler was seen to outlast it
+var c44HandlerBound, c44Timeouts atomic.Int64
+
+func init() { c44HandlerBound.Store(int64(2 * time.Second)) }
 
 func (w *windowInjector) logger() *zap.Logger {
 	return zap.New(hookCore{LevelEnabler: zapcore.InfoLevel, fn: func(e zapcore.Entry, fields []zapcore.Field) {
@@ -406,8 +417,19 @@ func (w *windowInjector) logger() *zap.Logger {
 			return
 		}
 		// we are inside closeOutdatedProxies: the cached proxy of `hostname` has been
-		// taken out of the cache, the router has not been rebuilt yet
-		p := startProbe(c, link, hostname, true, c44ProbeBudget)
+		// taken out of the cache, the router has not been rebuilt yet. The change is
+		// held here until the client's handler has returned (microseconds of work).
+		// Liveness bound only: an implementation whose handler waits for the change
+		// to finish must not deadlock the harness; once that is seen the bound shrinks.
+		p := startProbe(c, link, hostname, c44ProbeBudget)
+		bound := time.Duration(w.bound.Load())
+		select {
+		case <-p.returned:
+			w.inWindow.Add(1)
+		case <-time.After(bound):
+			w.bound.Store(int64(30 * time.Millisecond))
+			w.afterWindow.Add(1)
+		}
 		w.mu.Lock()
 		w.fired[hostname] = p
 		w.mu.Unlock()
@@ -421,6 +443,9 @@ func (w *windowInjector) arm(m map[string]string) {
 }
 
 func (w *windowInjector) collect() map[string]c44Obs {
+	if b := w.bound.Load(); b < c44HandlerBound.Load() {
+		c44HandlerBound.Store(b)
+	}
 	w.mu.Lock()
 	f := w.fired
 	w.armed, w.fired = nil, map[string]*pendingProbe{}
@@ -525,6 +550,11 @@ func (r *c44Runner) checkAll(stage string, only []string) {
 			want := probe(ref, link, hn)
 			if got.Timeout || want.Timeout {
 				r.rec.Inconclusive("probe-budget-expired")
+				if c44Timeouts.Add(1) >= 3 {
+					// connections that are accepted but never answered cannot be told from a slow machine:
+					// stop as inconclusive (exit 2) instead of burning the whole budget
+					r.t.Fatalf("machinery: inconclusive - %d connections got no answer within %v (last: %s %s/%s)", c44Timeouts.Load(), c44ProbeBudget, stage, hn, link)
+				}
 				continue
 			}
 			r.rec.Add("connections_checked", 1)
@@ -630,7 +660,7 @@ func runC44(t interface {
 	Helper()
 }, rec *ev.Recorder, h *c44Harness, sc *c44Scenario, hammerSeed int64) (windowsHit int) {
 	r := &c44Runner{t: t, rec: rec, h: h, sc: sc, taint: map[string]bool{}, hammer: map[string]bool{}, cur: sc.Initial}
-	r.inj = &windowInjector{fired: map[string]*pendingProbe{}}
+	r.inj = newInjector()
 	r.path = filepath.Join(h.dir, "client.yaml")
 	os.Remove(r.path)
 	r.fake = &fakeTC{genPrefix: "gen-"}
@@ -643,7 +673,12 @@ func runC44(t interface {
 	r.inj.mu.Lock()
 	r.inj.client = c
 	r.inj.mu.Unlock()
-	defer func() { c.Close(); c.VerifShutdownProxies() }()
+	defer func() {
+		c.Close()
+		c.VerifShutdownProxies()
+		rec.Add("window_connections_handled_inside_window", r.inj.inWindow.Load())
+		rec.Add("window_connections_handled_only_after_the_change", r.inj.afterWindow.Load())
+	}()
 
 	// hammer mode: background connections for random hostnames during the changes
 	var stop atomic.Bool
@@ -658,7 +693,7 @@ func runC44(t interface {
 				for !stop.Load() {
 					hn := c44Hosts[prng.Intn(len(c44Hosts))]
 					link := []string{"http", "http", "tcp"}[prng.Intn(3)]
-					startProbe(c, link, hn, false, 2*time.Second).wait()
+					startProbe(c, link, hn, 2*time.Second).wait()
 					hammered.Add(1)
 				}
 			}(g)
@@ -830,7 +865,7 @@ func sameExcept(cur, next []c44Tun, removed []string) bool {
 func TestC44(t *testing.T) {
 	rec := ev.New(t, "C44")
 	rec.Rule("A case is one configuration change inside a generated scenario: 1..4 initial tunnels over 5 hostnames and 6 self-identifying targets (3 unix-socket, 2 loopback, 1 loopback TLS with a self-signed certificate) with generated options (insecure, header timeout, header mode/host), then 1..3 changes, each 1..3 mutations (retarget, toggle insecure, change timeout, change header mode/host, remove, add, rename, swap targets, none) applied through RebuildTunnels, config-file edit + reload, or Unpublish/Release; before each change a generated subset of (hostname, link kind) connections is made (fills the proxy cache). Modes: sequential; window = for a generated subset of the changed/removed hostnames a connection is handed to the client's incoming-connection handler from inside the 'Shutting down proxy' log call, i.e. after the proxy was invalidated and before the router is rebuilt; hammer = 3 goroutines keep connecting to random hostnames while the changes run. Oracle after every change (hammer: after the last): for every hostname of the pool and one never-configured name, HTTP and TCP links, a new connection through the real handler reaches exactly the configured target (identity reported by the target), with the same Host header / status / header timeout as a FRESH client built from the same tunnel list; unconfigured names are refused; window mode also requires connections for hostnames being removed to be refused. Non-trivial: a changed or removed hostname had a cached proxy when the change started. Distinct = distinct (mode, tunnels before, tunnels after, method, earlier connections, injected connections).")
-	rec.Assume("the targets are reachable and answer (unix sockets / loopback)", "a connection arriving in the middle of a change may be served by the old or the new target unless its hostname is being removed; what it leaves behind is judged by connections made after the change", "probe budget 60 s per connection: expiry is inconclusive, never a failure")
+	rec.Assume("the targets are reachable and answer (unix sockets / loopback)", "a connection arriving in the middle of a change may be served by the old or the new target unless its hostname is being removed; what it leaves behind is judged by connections made after the change", "probe budget 20 s per connection: expiry is inconclusive, never a failure")
 	h := newC44Harness(t)
 
 	// ---- deterministic witnesses of the two listed findings
@@ -866,7 +901,7 @@ func TestC44(t *testing.T) {
 // witnessC44 replays a fixed two-line scenario without any assertion and
 // reports whether the listed behaviour shows.
 func witnessC44(h *c44Harness, sc *c44Scenario, sig string) (bool, string) {
-	inj := &windowInjector{fired: map[string]*pendingProbe{}}
+	inj := newInjector()
 	path := filepath.Join(h.dir, "witness.yaml")
 	c, _, _ := newClient(path, h.tunnels(sc.Initial), &fakeTC{}, []*protocol.Node{{Id: 1, Address: "gw-1:443"}}, nil, inj.logger())
 	inj.client = c
